@@ -3,6 +3,7 @@
 #include <stdint.h>
 #include <stdio.h>
 #include <stdlib.h>
+#include <unistd.h>
 #include <string.h>
 #include <new>
 static FILE *verif_stream;
@@ -63,9 +64,14 @@ void operator delete[](void *p) noexcept { free(p); }
 void operator delete(void *p, size_t) noexcept { free(p); }
 void operator delete[](void *p, size_t) noexcept { free(p); }
 #include <exception>
+#include <signal.h>
+static void verif_abort_handler(int) { const char m[] = "ASSUME-STOP\n"; fflush(stdout); (void)!write(1, m, sizeof(m) - 1); _Exit(0); }   // abort() from a libstdc++ assertion = cut path in the model
 static void verif_terminate() { printf("ASSUME-STOP\n"); fflush(stdout); _Exit(0); }   // uncaught C++ exception = cut path (assume(false)) in the model
 int main(int argc, char **argv) {
   std::set_terminate(verif_terminate);
+#ifndef VERIF_REPLAY
+  signal(SIGABRT, verif_abort_handler);
+#endif
   if (argc > 1) verif_stream = fopen(argv[1], "r");
   VERIF_ENTRY();
   printf("END\n");
